@@ -121,7 +121,7 @@ func run(in *bufio.Scanner, w *bufio.Writer) {
 			q, fill, contract := libParams(rate, capacity)
 			fmt.Fprintf(w, "< bucket cap=%d q=%d fill=%d minlen=%d contract=%v\n", capacity, q, fill, minlen, contract)
 			clk.now = start
-			conf := &config.ThermalThrottler{Activate: true, BucketSize: time.Duration(kv(f, "bucketsecs")) * time.Second,
+			conf := &config.ThermalThrottler{Activate: true, BucketSize: time.Duration(kv(f, "bucketsecs"))*time.Second + time.Duration(kv(f, "bucketfracms"))*time.Millisecond,
 				MinRefill: time.Duration(kv(f, "refillms")) * time.Millisecond}
 			tr = throttle.NewThrottledRecorderWithClock(bs, conf, kv(f, "minsecs"), lis{w}, clk, cam)
 			upOpen = false
@@ -195,7 +195,8 @@ func gen(r *common.Rng, tier string, w *bufio.Writer) {
 			minsecs = r.Range(1, bucketsecs)
 		}
 		refillms := r.Pick(1000, 1500, 3000, 7000, 10000, 60000, 600000)
-		hdr := fmt.Sprintf("case %d throttle bucketsecs=%d refillms=%d minsecs=%d fps=%d", id, bucketsecs, refillms, minsecs, fps)
+		// a bucket-size with a fraction of a second: the frames of the fraction do not count (whole seconds times fps)
+		hdr := fmt.Sprintf("case %d throttle bucketsecs=%d refillms=%d minsecs=%d fps=%d bucketfracms=%d", id, bucketsecs, refillms, minsecs, fps, r.Pick(0, 0, 0, 250, 500, 750, 999))
 		fmt.Fprintln(w, hdr)
 		capacity, minlen, rate := params(strings.Fields(hdr))
 		_, fill, _ := libParams(rate, capacity)
